@@ -488,3 +488,8 @@ MUTANTS = [
         if(!write_header(zck))
             return false;""", 'expect': 'R2.order zck_close'},
 ]
+
+
+# SESSION7b additions to the claim (round 8, DESIGN 12.6)
+CLAIM['technique'] += '; no-forward-seek deny rule on the write path and the zck tool'
+CLAIM['text'] += ' C01-n: the output offset advances only by writing (no relative seek over produced bytes).'
